@@ -163,6 +163,14 @@ func check(c Case) error {
 				if v.typ == "RNA" && c.SkipRNA {
 					continue
 				}
+				// calls the library has to reject (a letter outside the alphabet after accepted ones) and the steps
+				// of building the sequence up come first, results discarded: a call leaves nothing behind
+				for _, sp := range vk.Spoil(v.s, "J!"[n%2]) {
+					_, _ = seqhash.Hash(sp, v.typ, circ, ds)
+				}
+				for _, st := range vk.Stems(v.s) {
+					_, _ = seqhash.Hash(st, v.typ, circ, ds)
+				}
 				h0, err := hash(v.s, v.typ, circ, ds)
 				if err != nil {
 					return err
